@@ -116,6 +116,19 @@ def c03(out, tv):
     v = []
     if out.exc is not None:
         return v, 0
+    # a line that asked for another line which had no value yet (or for an input that was absent) and answered all the same:
+    # the "not yet" signal was swallowed and the answer was formed from a partial view
+    open_ = {}
+    for ev in tv.events:
+        if ev[0] == 'ATTEMPT_BEGIN':
+            open_[ev[1]] = []
+        elif ev[0] == 'READ_LINE' and not ev[2] and ev[4] in open_:
+            open_[ev[4]].append(ev[1])
+        elif ev[0] == 'ATTEMPT_END':
+            pending = open_.pop(ev[1], [])
+            if pending and ev[2] == 'value':
+                v.append(('answered-without-a-line-it-asked-for', f'{ev[1]} asked for {pending[0]}, which had no value yet, and still answered {ev[3]!r}'))
+                break
     fv = final_values(tv)
     vs = V.ValueStore()
     for k, val in fv.items():
@@ -198,23 +211,47 @@ def c04(out, tv):
     v = []
     if out.exc is not None:
         return v
-    forms_part = set(out.request)
-    for k in tv.read_keys:
-        forms_part.add(k.split('.', 1)[0])
-    lines_exp = set(out.field_names) | set(tv.read_keys)
-    for full in forms_part:
-        rl = drive.required_lines(out.classes, full)
-        if rl is None:
-            continue
-        lines_exp |= set(rl)
+    # the demand closure, built from the request outwards: the required lines of the requested forms (and the lines asked for
+    # by name), every line one of THOSE lines read, the required lines of the forms these reads brought in, and so on.  A
+    # form that was loaded for another reason, with all the reads its own lines then make, does not justify itself.
+    reads_by = {}
+    for ev in tv.events:
+        if ev[0] == 'READ_LINE' and ev[4] is not None:
+            reads_by.setdefault(ev[4], set()).add(ev[1])
+    forms_part = set()
+    lines_exp = set()
+    todo_forms = list(out.request)
+    todo_lines = list(out.field_names)
+    while todo_forms or todo_lines:
+        while todo_forms:
+            full = todo_forms.pop()
+            if full in forms_part:
+                continue
+            forms_part.add(full)
+            rl = drive.required_lines(out.classes, full)
+            if rl is not None:
+                todo_lines.extend(rl)
+        while todo_lines:
+            line = todo_lines.pop()
+            if line in lines_exp:
+                continue
+            lines_exp.add(line)
+            f_ = line.split('.', 1)[0]
+            if f_ not in forms_part:
+                todo_forms.append(f_)
+            for k in reads_by.get(line, ()):
+                if k not in lines_exp:
+                    todo_lines.append(k)
     sol = drive.solution_map(out)
     got_lines = {f'{s}.{k}' for s, kv in sol.items() for k in kv}
     exp_lower = {_lower_key(k) for k in lines_exp}
     got_forms = set(sol)
     known_forms = set(out.solver.forms)
     if out.ret is True:
-        if got_forms != forms_part:
-            v.append(('sections-ne-closure', f'solution sections {sorted(got_forms ^ forms_part)[:6]} differ from the forms demanded'))
+        # a form that takes part but has no required line and none of whose lines was read has nothing to show: no section
+        exp_sections = {k.split('.', 1)[0] for k in exp_lower}
+        if got_forms != exp_sections:
+            v.append(('sections-ne-closure', f'solution sections {sorted(got_forms ^ exp_sections)[:6]} differ from the forms demanded'))
         if got_lines != exp_lower:
             miss = sorted(exp_lower - got_lines)[:5]
             extra = sorted(got_lines - exp_lower)[:5]
@@ -282,6 +319,20 @@ def c06(out, tv, const=2):
         if n > 1:
             v.append(('input-asked-twice', f'{k} was prompted {n} times'))
             break
+    # a line is announced as met only once it has a value (its waiters are released to read it)
+    # (an input and the line echoing it can carry the same name: the tracker of the lines is the one in which a wait on a
+    # name was registered that only ever was an unmet LINE)
+    line_deps = {a[1] for atts in tv.attempts.values() for a in atts if a[0] == 'unmet_line'}
+    input_deps = {a[1] for atts in tv.attempts.values() for a in atts if a[0] == 'missing_input'}
+    field_tids = {ev[1] for ev in tv.events if ev[0] == 'DEP' and ev[2] == 'add_unmet' and ev[3] in line_deps - input_deps}
+    line_names = set(tv.attempts)
+    have = set()
+    for ev in tv.events:
+        if ev[0] == 'STORE_LINE':
+            have.add(ev[1])
+        elif ev[0] == 'DEP' and ev[2] == 'meet' and ev[1] in field_tids and ev[3] in line_names and ev[3] not in have:
+            v.append(('met-announced-without-a-value', f'{ev[3]} was announced as met although it has no value: its waiters are released before their dependency is met'))
+            break
     # tracker history: a yield needs a registered waiter of a met dependency
     pend, met = {}, {}
     for ev in tv.events:
@@ -320,6 +371,11 @@ def c06(out, tv, const=2):
                 break
             if oc == 'missing_input' and provided_now(out, det):
                 v.append(('lost-wakeup-input', f'{line} last stopped at input {det}, which was later provided, and was never re-evaluated'))
+                break
+            if oc == 'missing_spec':
+                # "the form owning that input is not loaded yet" is answered by loading it and trying the line again at once:
+                # a line whose last evaluation ended there was dropped (it waits for nothing and will never be tried again)
+                v.append(('dropped-after-missing-input-definition', f'{line} last stopped because the definition of input {det} was not loaded, and was never evaluated again'))
                 break
     return v
 
